@@ -4,6 +4,7 @@
     [compute_orthonormal_basis] and [_center_xi_realizations] by python-ast, DAG wiring by introspection. *)
 From Coq Require Import String Reals List.
 From Leaspy Require Import Base.RAux Formulas.Ortho Formulas.OrthoProofs Formulas.Gauge Formulas.GaugeProofs Formulas.GaugeTie.
+From Leaspy Require Import Formulas.OrthoBranchProofs Formulas.OrthoBranchTie Formulas.GaugeAll.
 From LeaspyGen Require Import GenC10.
 Import ListNotations.
 Local Open Scope R_scope.
@@ -189,3 +190,179 @@ Theorem C10_tie_wiring : forall B betas Srcs : matrix,
   gen_joint_space_shifts Srcs B = space_shifts Srcs B /\ gen_shared_space_shifts Srcs B = space_shifts Srcs B.
 Proof. exact tie_wiring. Qed.
 Print Assumptions C10_tie_wiring.
+
+(** ---- extension: EVERY branch of compute_orthonormal_basis (scalar / diagonal / full metric, any strip_col) ----
+    [gen_ortho_basis_{0,1,2}d strip_col d G] are regenerated from utils/linalg.py, one per branch of the chain on
+    [len(G_shape)], strip_col kept as a parameter.  [inner_kd G x y] is the inner product (1) of the docstring,
+    xᵀ G y, for G a positive scalar / a positive diagonal / a full matrix. *)
+
+(** Tie: the three generated functions and their guards are the models of Ortho.v; the function the models call
+    (1-D metric, default strip_col) is the 1-D branch at [gen_ortho_strip_default]. *)
+Theorem C10_tie_ortho_branches : forall (j : nat) (d : list R) (g : R) (G1 : list R) (G2 : matrix),
+  gen_ortho_basis_0d j d g = ortho_basis_0d j d g /\ gen_ortho_basis_1d j d G1 = ortho_basis_1d j d G1 /\
+  gen_ortho_basis_2d j d G2 = ortho_basis_2d j d G2 /\
+  (gen_ortho_pre_0d j d g <-> ortho_pre_0d j d g) /\ (gen_ortho_pre_1d j d G1 <-> ortho_pre_1d j d G1) /\
+  (gen_ortho_pre_2d j d G2 <-> ortho_pre_2d j d G2) /\
+  gen_ortho_basis d G1 = gen_ortho_basis_1d gen_ortho_strip_default d G1 /\
+  (gen_ortho_pre d G1 <-> gen_ortho_pre_1d gen_ortho_strip_default d G1).
+Proof. exact tie_branches. Qed.
+Print Assumptions C10_tie_ortho_branches.
+
+(** Every branch, every dimension, every strip_col accepted by the code: each returned column is orthogonal to the
+    direction d for the inner product of the branch, provided coordinate strip_col of G d is non-zero. *)
+Theorem C10_ortho_branches : forall (j : nat) (d : list R) (g : R) (G1 : list R) (G2 : matrix) (c : nat),
+  (S c < length d)%nat ->
+  (gen_ortho_pre_0d j d g -> nth j (vscale g d) 0 <> 0 -> inner_0d g (col c (gen_ortho_basis_0d j d g)) d = 0) /\
+  (gen_ortho_pre_1d j d G1 -> nth j (vmul G1 d) 0 <> 0 -> inner_1d G1 (col c (gen_ortho_basis_1d j d G1)) d = 0) /\
+  (gen_ortho_pre_2d j d G2 -> nth j (matvec G2 d) 0 <> 0 -> inner_2d G2 (col c (gen_ortho_basis_2d j d G2)) d = 0).
+Proof. exact gen_branches_orthogonal. Qed.
+Print Assumptions C10_ortho_branches.
+
+(** The proviso is needed in every branch (torch.sign(0) = 0): accepted inputs with a non-zero metric norm whose
+    kept column is not orthogonal to d (d = (1,0), strip_col = 1, identity metric as scalar / vector / matrix). *)
+Theorem C10_ortho_branches_zero_pivot_refuted :
+  (exists j d g c, gen_ortho_pre_0d j d g /\ inner_0d g d d <> 0 /\ (S c < length d)%nat /\
+     inner_0d g (col c (gen_ortho_basis_0d j d g)) d <> 0) /\
+  (exists j d G c, gen_ortho_pre_1d j d G /\ inner_1d G d d <> 0 /\ (S c < length d)%nat /\
+     inner_1d G (col c (gen_ortho_basis_1d j d G)) d <> 0) /\
+  (exists j d G c, gen_ortho_pre_2d j d G /\ inner_2d G d d <> 0 /\ (S c < length d)%nat /\
+     inner_2d G (col c (gen_ortho_basis_2d j d G)) d <> 0).
+Proof. exact gen_branches_zero_pivot_refuted. Qed.
+Print Assumptions C10_ortho_branches_zero_pivot_refuted.
+
+(** Orthonormality, for the inner product the code documents ("always orthonormal for the Euclidean canonical inner
+    product"): every branch, every dimension, every strip_col, every direction of non-zero metric norm dᵀ G d —
+    no condition on the pivot coordinate. *)
+Theorem C10_orthonormal_branches : forall (j : nat) (d : list R) (g : R) (G1 : list R) (G2 : matrix) (c c' : nat),
+  (S c < length d)%nat -> (S c' < length d)%nat ->
+  (gen_ortho_pre_0d j d g -> inner_0d g d d <> 0 ->
+     dot (col c (gen_ortho_basis_0d j d g)) (col c' (gen_ortho_basis_0d j d g)) = if Nat.eqb c c' then 1 else 0) /\
+  (gen_ortho_pre_1d j d G1 -> inner_1d G1 d d <> 0 ->
+     dot (col c (gen_ortho_basis_1d j d G1)) (col c' (gen_ortho_basis_1d j d G1)) = if Nat.eqb c c' then 1 else 0) /\
+  (gen_ortho_pre_2d j d G2 -> inner_2d G2 d d <> 0 ->
+     dot (col c (gen_ortho_basis_2d j d G2)) (col c' (gen_ortho_basis_2d j d G2)) = if Nat.eqb c c' then 1 else 0).
+Proof. exact gen_branches_orthonormal. Qed.
+Print Assumptions C10_orthonormal_branches.
+
+(** The basis the models use: orthonormal for every accepted metric and every direction that is not the zero vector. *)
+Theorem C10_orthonormal : forall (d G : list R) (c c' : nat),
+  gen_ortho_pre d G -> (exists i, nth i d 0 <> 0) -> (S c < length d)%nat -> (S c' < length d)%nat ->
+  dot (col c (gen_ortho_basis d G)) (col c' (gen_ortho_basis d G)) = if Nat.eqb c c' then 1 else 0.
+Proof. exact gen_default_orthonormal. Qed.
+Print Assumptions C10_orthonormal.
+
+(** ... and NOT orthonormal for the metric inner product (scalar metric 2: every column has metric norm² 2) — what
+    the docstring says ("we could do otherwise if we'd like a full orthonormal basis w.r.t. the non-Euclidean ..."). *)
+Theorem C10_orthonormal_metric_refuted :
+  exists j d g c, gen_ortho_pre_0d j d g /\ inner_0d g d d <> 0 /\ (S c < length d)%nat /\
+    inner_0d g (col c (gen_ortho_basis_0d j d g)) (col c (gen_ortho_basis_0d j d g)) <> 1.
+Proof. exact gen_metric_orthonormal_refuted. Qed.
+Print Assumptions C10_orthonormal_metric_refuted.
+
+(** Every branch is invariant under d -> c d, c > 0 (what makes log_v0 + m harmless whatever the metric's shape). *)
+Theorem C10_basis_collinear_branches : forall (c : R) (j : nat) (d : list R) (g : R) (G1 : list R) (G2 : matrix),
+  0 < c ->
+  gen_ortho_basis_0d j (vscale c d) g = gen_ortho_basis_0d j d g /\
+  gen_ortho_basis_1d j (vscale c d) G1 = gen_ortho_basis_1d j d G1 /\
+  gen_ortho_basis_2d j (vscale c d) G2 = gen_ortho_basis_2d j d G2.
+Proof. exact gen_branches_collinear. Qed.
+Print Assumptions C10_basis_collinear_branches.
+
+(** ---- extension: EVERY copy of _center_xi_realizations in the source, and the mixture model ----
+    [gen_center_scripts] has one entry ((kind, defining class), (model has n_log_nu, translated script)) per shipped
+    model kind whose class resolves the method; [gen_center_classes] = the classes of leaspy/models/ whose body
+    defines it (python-ast scan of the source). *)
+
+(** Each copy performs exactly the gauge move m = mean xi — n_log_nu included exactly when the model has it — and
+    touches nothing else; every defining class of the source is reached; the scripts of logistic / linear / joint
+    are the ones of C10_script / C10_script_joint. *)
+Theorem C10_script_all_classes :
+  Forall (fun e => script_gauge (fst (snd e)) (snd (snd e))) gen_center_scripts /\
+  (classes_covered_b = true /\ gen_center_classes <> []) /\
+  (In (("logistic", "RiemanianManifoldModel"), (false, gen_center_script_logistic))%string gen_center_scripts /\
+   In (("linear", "RiemanianManifoldModel"), (false, gen_center_script_linear))%string gen_center_scripts /\
+   In (("joint", "JointModel"), (true, gen_center_script_joint))%string gen_center_scripts).
+Proof. split; [exact all_scripts_gauge | split; [exact classes_covered | exact scripts_of_the_kinds]]. Qed.
+Print Assumptions C10_script_all_classes.
+
+(** The mixture model (its own copy of the step; sources are mandatory): the move leaves its trajectory and its
+    attachment term unchanged for all reals, and the basis — hence the space shifts — too. *)
+Theorem C10_gauge_mixture :
+  (forall m y s lg lv xi tau t w : R,
+     gen_mixture_traj_src lg (lv + m) (xi - m) tau t w = gen_mixture_traj_src lg lv xi tau t w /\
+     gen_mixture_attach_src y s lg (lv + m) (xi - m) tau t w = gen_mixture_attach_src y s lg lv xi tau t w) /\
+  (forall (m : R) (lgl lvl : list R) (betas sources : matrix),
+     gen_mixture_basis lgl (shift m lvl) = gen_mixture_basis lgl lvl /\
+     gen_mixture_space_shifts sources (gen_mixture_mixing (gen_mixture_basis lgl (shift m lvl)) betas)
+       = gen_mixture_space_shifts sources (gen_mixture_mixing (gen_mixture_basis lgl lvl) betas)).
+Proof.
+  split; [exact gauge_mixture | intros; split; [apply gauge_basis_mixture | apply gauge_space_shifts_mixture]].
+Qed.
+Print Assumptions C10_gauge_mixture.
+
+(** Mixture model: rows of the mixing matrix and individual space shifts are orthogonal to G∘d; DAG wiring tie. *)
+Theorem C10_mixture_orthogonal :
+  forall (lgl lvl : list R) (betas sources : matrix) (k : nat),
+  (length lgl = length lvl -> (0 < length lvl)%nat -> (S (length betas) <= length lvl)%nat ->
+   dot (nth k (gen_mixture_mixing (gen_mixture_basis lgl lvl) betas) [])
+       (vmul (map gen_mixture_G lgl) (map gen_mixture_dir lvl)) = 0 /\
+   dot (nth k (gen_mixture_space_shifts sources (gen_mixture_mixing (gen_mixture_basis lgl lvl) betas)) [])
+       (vmul (map gen_mixture_G lgl) (map gen_mixture_dir lvl)) = 0) /\
+  (forall B : matrix, gen_mixture_mixing B betas = mixing_matrix B betas /\
+                      gen_mixture_space_shifts sources B = space_shifts sources B).
+Proof. intros. split; [now apply mixture_orthogonal | intros B; apply tie_wiring_mixture]. Qed.
+Print Assumptions C10_mixture_orthogonal.
+
+(** The mixture model's compute_sufficient_statistics also calls _center_sources_realizations: translated, it is
+    sources := sources - mean(all entries of sources), nothing else — and that is NOT a gauge change: nothing
+    compensates it and the space shifts (hence the trajectories) move.  Replayed on the code at every run. *)
+Theorem C10_mixture_sources_centring_refuted :
+  (forall (st : store) (ss : list R), st "sources"%string = Some (VV ss) ->
+     exists st', run_script gen_center_extra_mixture_sources st empty = Some st' /\
+                 st' "sources"%string = Some (VV (center ss)) /\ forall v, v <> "sources"%string -> st' v = st v) /\
+  (exists (ss : list R) (M : matrix),
+     space_shifts (map (fun x => [x]) (center ss)) M <> space_shifts (map (fun x => [x]) ss) M).
+Proof. split; [exact script_mixture_sources | exact mixture_sources_centring_moves_space_shifts]. Qed.
+Print Assumptions C10_mixture_sources_centring_refuted.
+
+(** Whatever branch of the helper and whatever strip_col a model wires: every row of the mixing matrix (B·betas)ᵀ and
+    every individual space shift sources·(B·betas)ᵀ is orthogonal to the direction d for the metric of the branch. *)
+Theorem C10_mixing_orthogonal_branches :
+  forall (j : nat) (d : list R) (g : R) (G1 : list R) (G2 betas sources : matrix) (k : nat),
+  (S (length betas) <= length d)%nat ->
+  (gen_ortho_pre_0d j d g -> nth j (vscale g d) 0 <> 0 ->
+     inner_0d g (nth k (mixing_matrix (gen_ortho_basis_0d j d g) betas) []) d = 0 /\
+     inner_0d g (nth k (space_shifts sources (mixing_matrix (gen_ortho_basis_0d j d g) betas)) []) d = 0) /\
+  (gen_ortho_pre_1d j d G1 -> nth j (vmul G1 d) 0 <> 0 ->
+     inner_1d G1 (nth k (mixing_matrix (gen_ortho_basis_1d j d G1) betas) []) d = 0 /\
+     inner_1d G1 (nth k (space_shifts sources (mixing_matrix (gen_ortho_basis_1d j d G1) betas)) []) d = 0) /\
+  (gen_ortho_pre_2d j d G2 -> nth j (matvec G2 d) 0 <> 0 ->
+     inner_2d G2 (nth k (mixing_matrix (gen_ortho_basis_2d j d G2) betas) []) d = 0 /\
+     inner_2d G2 (nth k (space_shifts sources (mixing_matrix (gen_ortho_basis_2d j d G2) betas)) []) d = 0).
+Proof. exact gen_branches_mixing_space_shifts. Qed.
+Print Assumptions C10_mixing_orthogonal_branches.
+
+(** Orthonormality for EVERY direction that is not the zero vector: scalar and diagonal branches with no further
+    hypothesis (the guards make the metric positive), full branch for a positive definite metric (which the code does
+    not check: [pos_def_2d] stays a hypothesis; non-vacuous: [ex_pos_def]). *)
+Theorem C10_orthonormal_nonzero_direction :
+  forall (j : nat) (d : list R) (g : R) (G1 : list R) (G2 : matrix) (c c' : nat),
+  (exists i, nth i d 0 <> 0) -> (S c < length d)%nat -> (S c' < length d)%nat ->
+  (gen_ortho_pre_0d j d g ->
+     dot (col c (gen_ortho_basis_0d j d g)) (col c' (gen_ortho_basis_0d j d g)) = if Nat.eqb c c' then 1 else 0) /\
+  (gen_ortho_pre_1d j d G1 ->
+     dot (col c (gen_ortho_basis_1d j d G1)) (col c' (gen_ortho_basis_1d j d G1)) = if Nat.eqb c c' then 1 else 0) /\
+  (gen_ortho_pre_2d j d G2 -> pos_def_2d G2 (length d) ->
+     dot (col c (gen_ortho_basis_2d j d G2)) (col c' (gen_ortho_basis_2d j d G2)) = if Nat.eqb c c' then 1 else 0).
+Proof. exact gen_branches_orthonormal_nonzero. Qed.
+Print Assumptions C10_orthonormal_nonzero_direction.
+
+(** Composition, every copy of the step (logistic, linear, joint, mixture entries of [gen_center_scripts]): running the
+    translated script on any store holding xi and log_v0 (and n_log_nu iff the model has it) ends in a store whose xi
+    have mean 0 and in which, for every individual i and every coordinate k (every event q), ALL the traced trajectory
+    and attachment formulas (and, with n_log_nu, the Weibull event terms) take the value they had before; no other
+    variable is touched.  [step_preserves], [formulas_invariant], [event_invariant]: Formulas/GaugeAll.v. *)
+Theorem C10_step_is_pure_gauge_all_classes :
+  Forall (fun e => step_preserves (fst (snd e)) (snd (snd e))) gen_center_scripts.
+Proof. exact all_steps_preserve. Qed.
+Print Assumptions C10_step_is_pure_gauge_all_classes.
